@@ -104,6 +104,16 @@ theorem C21_gen_no_writes_outside : Gen.C21.outsideWrites = allowedOutsideWrites
 theorem C21_gen_shared_fields : nsharedFields Gen.C21.nsites =
     [[78,111,80,114,111,100,117,99,101,114,115], [68,80,111,83,86,50,82,101,119,97,114,100,73,110,102,111,91,93], [78,101,101,100,78,101,120,116,84,117,114,110,68,80,79,83,73,110,102,111]] := by decide +kernel
 
+/-- T-gen: `Arbiters.ProcessBlock` runs the State part of a block first (`a.State.ProcessBlock`, committing
+    `s.History`) and the arbiter part second (`a.IncreaseChainHeight`, committing `a.History`), and
+    `Arbiters.RollbackTo` undoes them in the opposite order: `a.History` before `a.State`.  For a field both
+    layers write inside ONE block (e.g. `NeedNextTurnDPOSInfo`, see `C21_gen_shared_fields`) the arbiter's captured
+    value is the one after the State part, so it has to be restored first.  (Across several heights this order is
+    still wrong — known finding C21-arbiters-noproducers; node callers roll back one block per call.) -/
+theorem C21_gen_arbiters_order :
+    Gen.C21.arbProcessOrder = [[97,46,83,116,97,116,101,46,80,114,111,99,101,115,115,66,108,111,99,107], [97,46,73,110,99,114,101,97,115,101,67,104,97,105,110,72,101,105,103,104,116]] ∧
+    Gen.C21.arbRollbackOrder = [[97,46,72,105,115,116,111,114,121], [97,46,100,101,103,114,97,100,97,116,105,111,110], [97,46,83,116,97,116,101]] := by decide +kernel
+
 /-- **Generic theorem (rollback = direct build for well-paired sites).**  On a history that
     represents `chain` (`Good`, reachable by `C20_block_good`), if every block of the chain consists
     of well-paired site instances whose captures were taken on the pre-block state, `RollbackTo h`
